@@ -105,6 +105,117 @@ class Logger(ast.NodeTransformer):
         return n
 
 
+class NegSwap(ast.NodeTransformer):
+    """if c: A else: B  ->  if not c: B else: A   (only plain if/else, not elif chains)"""
+    def visit_If(self, n):
+        self.generic_visit(n)
+        if n.orelse and not (len(n.orelse) == 1 and isinstance(n.orelse[0], ast.If)):
+            t = n.test
+            if isinstance(t, ast.UnaryOp) and isinstance(t.op, ast.Not):
+                nt = t.operand
+            else:
+                nt = ast.UnaryOp(op=ast.Not(), operand=t)
+            return ast.copy_location(ast.If(test=nt, body=n.orelse, orelse=n.body), n)
+        return n
+
+
+def _ends(body):
+    return bool(body) and isinstance(body[-1], (ast.Return, ast.Raise, ast.Continue, ast.Break))
+
+
+class ElseAfterReturn(ast.NodeTransformer):
+    """if c: ...return   rest   ->   if c: ...return  else: rest   (and the reverse for if/else)"""
+    def _fix(self, body):
+        out = []
+        i = 0
+        while i < len(body):
+            s = body[i]
+            if isinstance(s, ast.If) and not s.orelse and _ends(s.body) and i + 1 < len(body):
+                s.orelse = body[i + 1:]
+                out.append(s)
+                return out
+            if isinstance(s, ast.If) and s.orelse and _ends(s.body) and not (
+                    len(s.orelse) == 1 and isinstance(s.orelse[0], ast.If)):
+                rest = s.orelse
+                s.orelse = []
+                out.append(s)
+                out.extend(rest)
+                i += 1
+                continue
+            out.append(s)
+            i += 1
+        return out
+
+    def generic_visit(self, node):
+        super().generic_visit(node)
+        for fld in ("body", "orelse", "finalbody"):
+            b = getattr(node, fld, None)
+            if isinstance(b, list) and b and isinstance(b[0], ast.stmt):
+                setattr(node, fld, self._fix(b))
+        return node
+
+
+class AnnAssign(ast.NodeTransformer):
+    """x = v  ->  x: object = v   for simple local names"""
+    def visit_Assign(self, n):
+        if len(n.targets) == 1 and isinstance(n.targets[0], ast.Name):
+            return ast.copy_location(ast.AnnAssign(target=n.targets[0], annotation=ast.Name(id="object", ctx=ast.Load()),
+                                                   value=n.value, simple=1), n)
+        return n
+
+
+def inline_single_use(fn):
+    """x = <attribute chain / subscript / name / constant>; ... one later use of x  ->  the use is replaced
+    by the expression and the assignment removed (only when x is assigned once and the statement that
+    uses it is the next statement of the same block, so evaluation order is unchanged)"""
+    changed = False
+
+    def pure(e):
+        return all(isinstance(n, (ast.Attribute, ast.Subscript, ast.Name, ast.Constant, ast.Load, ast.Slice,
+                                  ast.BinOp, ast.Add, ast.Sub, ast.Tuple)) for n in ast.walk(e))
+
+    stores = {}
+    loads = {}
+    for n in ast.walk(fn):
+        if isinstance(n, ast.Name):
+            (stores if isinstance(n.ctx, ast.Store) else loads).setdefault(n.id, []).append(n)
+
+    def fix(body):
+        nonlocal changed
+        out = []
+        i = 0
+        while i < len(body):
+            s = body[i]
+            if (isinstance(s, ast.Assign) and len(s.targets) == 1 and isinstance(s.targets[0], ast.Name)
+                    and pure(s.value) and i + 1 < len(body)):
+                x = s.targets[0].id
+                nxt = body[i + 1]
+                uses_next = [n for n in ast.walk(nxt) if isinstance(n, ast.Name) and n.id == x and isinstance(n.ctx, ast.Load)]
+                if len(stores.get(x, [])) == 1 and len(loads.get(x, [])) == 1 and len(uses_next) == 1 \
+                        and not isinstance(nxt, (ast.For, ast.While, ast.If, ast.With, ast.Try)):
+                    class R(ast.NodeTransformer):
+                        def visit_Name(self, n):
+                            if n.id == x and isinstance(n.ctx, ast.Load):
+                                return s.value
+                            return n
+                    body[i + 1] = R().visit(nxt)
+                    changed = True
+                    i += 1
+                    continue
+            for fld in ("body", "orelse", "finalbody"):
+                b = getattr(s, fld, None)
+                if isinstance(b, list) and b and isinstance(b[0], ast.stmt):
+                    setattr(s, fld, fix(b))
+            for h in getattr(s, "handlers", []) or []:
+                h.body = fix(h.body)
+            out.append(s)
+            i += 1
+        return out
+
+    fn.body = fix(fn.body)
+    return changed
+
+
 def variants(prog, kinds, only_module=None):
     out = []
     for m in prog.modules.values():
@@ -136,6 +247,17 @@ def variants(prog, kinds, only_module=None):
                     if not has_logger:
                         continue
                     Logger().visit(target)
+                elif kind == "inline":
+                    if not inline_single_use(target):
+                        continue
+                elif kind == "negswap":
+                    for i, c in enumerate(list(target.body)):
+                        target.body[i] = NegSwap().visit(c)
+                elif kind == "elseret":
+                    ElseAfterReturn().visit(target)
+                elif kind == "annassign":
+                    for i, c in enumerate(list(target.body)):
+                        target.body[i] = AnnAssign().visit(c)
                 if ast.dump(target) == before:
                     continue
                 ast.fix_missing_locations(tree)
